@@ -4,9 +4,9 @@ mode = "dfcc"
 enforce = "DetailedPlacement_check_structure"
 timeout = 600
 solver = "kissat"
-function = "DetailedPlacement::check (structural loops over rows and cells; the orientation loop that walks rowCells() is cut at a must-fire anchor)"
+function = "DetailedPlacement::check (structural loops over rows and cells; the orientation loop that walks rowCells() is cut at a must-fire anchor and proved in unit c04_dp_check_orient)"
 assumptions = ["checker soundness: check() is run from an ARBITRARY state, so stored indices must be well-typed before they are dereferenced; TYPEOK (stored indices in [-1,n), magnitudes) is a named invariant instantiated at the loop index and its neighbours; it is preserved by every mutator (units c02_dp_place / c02_dp_insert) and established by the constructor's assignments",
-               "the third loop of check() (orientation vs polarity, walks the linked list through rowCells) is not under contract"]
+               "the third loop of check() (orientation vs polarity, walks the linked list through rowCells) is under contract in unit c04_dp_check_orient"]
 [replay]
 template = "replay/c02_detailed_history.cpp"
 search = true
